@@ -333,7 +333,8 @@ def _random_chunk(arg):
         fmt = rng.choice(["ff", "itp"])
         if not u.can_render(ff, fmt) or (prop == "C14" and any(x["sec"] == "exclusions" for b in ff["blocks"] for x in b["inters"])):
             fmt = "ff"
-        paths = u.render_ff(ff, fmt, Path(wd) / ("c%d" % gi), tag="f")
+        # the order of the files on the command line is drawn too (F33, repaired: an .itp read after a .ff must leave it alone)
+        paths = u.render_ff(ff, fmt, Path(wd) / ("c%d" % gi), tag="f", itp_first=rng.random() < 0.5)
         lay = u.graph_layout(inp, rng)
         if gi % 3 == 0:       # through the real entry point and the written file
             obs = u.run_gen_params(paths, inp, lay, Path(wd) / ("c%d" % gi))
@@ -406,8 +407,11 @@ def make_case(inp, obs, use_apps=False, apps=()):
             "base": base, "final": final}
 
 
-def validate(ck, prop, doc, name, asis=False, count=True):
-    """run FFTrace on a document; returns {case id (1-based): [(stage, verdict, fired), ...]}"""
+BATCH = 40     # records per TLC invocation: FFTrace re-reads the document at every reference, so documents stay small
+
+
+def _validate_one(args):
+    prop, doc, name, asis = args
     wd = c.workdir(prop, "trace_" + name)
     f = wd / "doc.json"
     f.write_text(json.dumps(doc))
@@ -418,12 +422,29 @@ def validate(ck, prop, doc, name, asis=False, count=True):
     v = res.tagged("VERDICTS")
     if res.rc != 0 or not v:
         raise c.MachineryError("FFTrace failed on %s (rc=%s): %s" % (name, res.rc, res.out[-3000:]))
-    if count:
-        ck.add_tlc(res)
+    return res, v[0]
+
+
+def validate(ck, prop, doc, name, asis=False, count=True):
+    """run FFTrace on a document (in batches, concurrently); returns {case id (1-based): [(stage, verdict, fired), ...]}"""
+    from concurrent.futures import ThreadPoolExecutor
+    cases = doc["cases"]
+    jobs = []
+    for k in range(0, max(1, len(cases)), BATCH):
+        sub = cases[k:k + BATCH]
+        used = sorted({x["inp"]["ff"] for x in sub})          # only the force fields this batch needs
+        remap = {ff: i + 1 for i, ff in enumerate(used)}
+        sub = [dict(x, inp=dict(x["inp"], ff=remap[x["inp"]["ff"]])) for x in sub]
+        jobs.append((k, (prop, {"ffs": [doc["ffs"][ff - 1] for ff in used], "cases": sub}, "%s_%d" % (name, k // BATCH), asis)))
+    with ThreadPoolExecutor(max(1, min(len(jobs), max(2, c.NPROC // 2)))) as ex:
+        outs = list(ex.map(lambda j: _validate_one(j[1]), jobs))
     by = {}
-    for ent in v[0]:
-        tid, stage, verdict, fired = ent[0], ent[1], ent[2], ent[3]
-        by.setdefault(int(tid), []).append((stage, verdict, tuple(fired) if not isinstance(fired, dict) else ()))
+    for (k, _), (res, ents) in zip(jobs, outs):
+        if count:
+            ck.add_tlc(res)
+        for ent in ents:
+            tid, stage, verdict, fired = ent[0], ent[1], ent[2], ent[3]
+            by.setdefault(int(tid) + k, []).append((stage, verdict, tuple(fired) if not isinstance(fired, dict) else ()))
     return by
 
 
@@ -445,13 +466,9 @@ def first_bad(ents):
 
 
 def exc_matches(exc, verdict):
-    if verdict == "model-error:mismatch":
-        return exc["type"] in ("OSError", "IOError") and "match_nodes_to_blocks" in exc["site"] and "mismatch in the length" in exc["msg"]
-    if verdict == "model-error:index":
+    if verdict == "model-error:index":      # F14
         return exc["type"] == "IndexError" and "match_link_and_residue_atoms" in exc["site"]
-    if verdict == "model-error:fragindex":
-        return exc["type"] == "IndexError" and "map_to_molecule.py:add_blocks" in exc["site"]
-    return False
+    return False                            # F31 / F32 are repaired: their errors are violations again
 
 
 def judge(ck, prop, doc, metas, name):
